@@ -259,3 +259,58 @@ pub fn replay(sink: &Sink, args: &Args) {
         }
     }
 }
+
+/// Re-execute recorded graph-domain events on the current tree: the inputs are taken from the event, the call is
+/// made again, a fresh event is emitted (to be judged by the trace spec again).
+pub fn rerun(sink: &Sink, args: &Args) {
+    let f = std::fs::File::open(args.get("in", "")).expect("cannot open --in");
+    let tmpdir = std::path::Path::new(&args.get("out", "")).parent().map(|p| p.to_string_lossy().to_string()).unwrap_or_else(|| ".".into());
+    let mut r = Rng::new(args.num("seed", 1));
+    for line in std::io::BufReader::new(f).lines() {
+        let line = line.unwrap();
+        let v: Value = match serde_json::from_str(&line) {
+            Ok(v) => v,
+            Err(_) => continue,
+        };
+        let k = v["K"].as_u64().unwrap_or(0) as usize;
+        if k == 0 {
+            continue;
+        }
+        let reads: Vec<Vec<u8>> = v["reads"].as_array().map(|a| a.iter().map(jbytes).collect()).unwrap_or_default();
+        let inp = GInput { reads, k, stranded: v["st"].as_bool().unwrap_or(false), thr: v["thr"].as_u64().unwrap_or(1) as usize,
+            mode: Mode::parse(v["mode"].as_str().unwrap_or("sum")), fam: "rerun" };
+        match v["op"].as_str().unwrap_or("") {
+            "compress" => {
+                let rows = rows_from_json(&v["table"]);
+                let entry = v["entry"].as_str().unwrap_or("hash").to_string();
+                with_kmer!(k, ev_compress(sink, &inp, &rows, &entry, "rerun"));
+            }
+            "recompress" => {
+                let g = nodes_from_json(&v["g"]);
+                let cens: Vec<usize> = v["censor"].as_array().map(|a| a.iter().map(|x| x.as_u64().unwrap_or(0) as usize).collect()).unwrap_or_default();
+                let origin = v["origin"].as_str().unwrap_or("rerun/censor").to_string();
+                with_kmer!(k, ev_recompress(sink, &inp, &g, &cens, &origin));
+            }
+            "graphq" => {
+                let nodes = nodes_from_json(&v["nodes"]);
+                with_kmer!(k, ev_graphq(sink, &mut r, &inp, &nodes, "rerun"));
+            }
+            "export" => {
+                let nodes = nodes_from_json(&v["nodes"]);
+                with_kmer!(k, ev_export(sink, &inp, &nodes, &tmpdir));
+            }
+            "serde" => {
+                let nodes = nodes_from_json(&v["nodes"]);
+                with_kmer!(k, ev_serde(sink, &mut r, &inp, &nodes));
+            }
+            "iterall" => {
+                let nodes = nodes_from_json(&v["nodes"]);
+                with_kmer!(k, ev_iter(sink, &mut r, &inp, &nodes));
+            }
+            "pipeline" => {
+                with_kmer!(k, ev_pipeline(sink, &mut r, &inp));
+            }
+            _ => {}
+        }
+    }
+}
